@@ -88,7 +88,7 @@ def batches(ck):
     yield "lead_bytes", lead_texts
     rng = ck.rng
     rnd = []
-    for _ in range(300 if quick else 4000):
+    for _ in range(300 if quick else 40000):
         ln = rng.choice([8, 20, 60, 200])
         rnd.append("".join(rng.choice(ALPHABET + reps + ["b", "x", "\n", "\r\n"]) for _ in range(ln)))
     yield "random_long", rnd
